@@ -101,13 +101,13 @@ type engine interface {
 }
 
 type eng[E any] struct {
-	tag   string // case kind (+ container index), leads every message
-	b     box[E]
-	fifo  bool
-	quiet bool
-	conv  func(int) E
-	eq    func(a, b E) bool
-	model []E
+	tag           string // case kind (+ container index), leads every message
+	b             box[E]
+	fifo          bool
+	quiet         bool
+	conv          func(int) E
+	eq            func(a, b E) bool
+	model         []E
 	lastWasInsert bool
 	stats
 }
